@@ -67,6 +67,20 @@ func NewSolver(name string, timeoutMs int, log io.Writer) (*Solver, error) {
 		return nil, err
 	}
 	s := &Solver{name: name, cmd: cmd, in: in, w: bufio.NewWriterSize(in, 1<<16), out: bufio.NewReaderSize(outp, 1<<16), declared: map[string]Sort{}, log: log}
+	s.prelude()
+	return s, nil
+}
+
+// Reset returns the solver to its initial state (no assertions, no declarations).
+func (s *Solver) Reset() {
+	s.send("(reset)")
+	s.level = 0
+	s.declared = map[string]Sort{}
+	s.prelude()
+}
+
+func (s *Solver) prelude() (*Solver, error) {
+	name := s.name
 	s.send("(set-option :print-success false)")
 	s.send("(set-option :produce-models true)")
 	if name == "cvc5" {
